@@ -15,6 +15,9 @@ enum Op {
     Start { obj: u8, vi: u8 },
     CloneXY,
     CloneYX,
+    /// `Y.clone_from(&X)` / `X.clone_from(&Y)`: assignment of a clone through the other Clone method
+    CloneFromXY,
+    CloneFromYX,
 }
 
 fn alphabet(nt: u8) -> Vec<Op> {
@@ -31,6 +34,8 @@ fn alphabet(nt: u8) -> Vec<Op> {
     }
     v.push(Op::CloneXY);
     v.push(Op::CloneYX);
+    v.push(Op::CloneFromXY);
+    v.push(Op::CloneFromYX);
     v
 }
 
@@ -93,6 +98,8 @@ fn opname(op: &Op, times: &[f32]) -> String {
         Op::Start { obj, vi } => format!("{}.start_with(v{})", ["X", "Y"][obj as usize], vi),
         Op::CloneXY => "Y = X.clone()".into(),
         Op::CloneYX => "X = Y.clone()".into(),
+        Op::CloneFromXY => "Y.clone_from(&X)".into(),
+        Op::CloneFromYX => "X.clone_from(&Y)".into(),
     }
 }
 
@@ -141,6 +148,16 @@ fn apply<T: Timeline<Target = P> + Clone>(c: &Ctx, s: &mut St<T>, op: &Op, hist:
         }
         Op::CloneYX => {
             s.objs[0] = s.objs[1].clone();
+            s.start[0] = s.start[1];
+        }
+        Op::CloneFromXY => {
+            let (x, y) = s.objs.split_at_mut(1);
+            y[0].clone_from(&x[0]);
+            s.start[1] = s.start[0];
+        }
+        Op::CloneFromYX => {
+            let (x, y) = s.objs.split_at_mut(1);
+            x[0].clone_from(&y[0]);
             s.start[0] = s.start[1];
         }
     }
@@ -262,7 +279,7 @@ pub fn run(run: Run) -> ! {
     cov.insert("traces_validated_against_impl".into(), json!(acc.sequences));
     cov.insert("evaluations".into(), json!(acc.updates));
     cov.insert("distinct_nontrivial".into(), json!(acc.sequences));
-    cov.insert("rule".into(), json!(format!("{} plain timelines ({} keyframe lists from T(2),T(3) x 6 timings) and {} merged timelines (two components with different delays/timings); objects X and Y (clone slot); alphabet of {} operations: update(obj, target in {{fresh sentinel, dirty, previous result}}, 6 times spanning before-start (negative zero when there is no delay) / between the component delays / first pass / second pass-or-after-end / exactly on the 50% keyframe position / far), start_with(obj, 3 values), Y=X.clone(), X=Y.clone(); ALL sequences of length {} (stateless DFS, state = history); oracle: every update equals the memo entry (latest start value of that object, time) computed on a pristine twin into a fresh target, untouched fields keep the input's bits; delay/cycle/duration/repeat never change; non-trivial = complete sequences", n_single, kfss.len(), objects.len() - n_single, ops.len(), depth)));
+    cov.insert("rule".into(), json!(format!("{} plain timelines ({} keyframe lists from T(2),T(3) x 6 timings) and {} merged timelines (two components with different delays/timings); objects X and Y (clone slot); alphabet of {} operations: update(obj, target in {{fresh sentinel, dirty, previous result}}, 6 times spanning before-start (negative zero when there is no delay) / between the component delays / first pass / second pass-or-after-end / exactly on the 50% keyframe position / far), start_with(obj, 3 values), Y=X.clone(), X=Y.clone(), Y.clone_from(&X), X.clone_from(&Y); ALL sequences of length {} (stateless DFS, state = history); oracle: every update equals the memo entry (latest start value of that object, time) computed on a pristine twin into a fresh target, untouched fields keep the input's bits; delay/cycle/duration/repeat never change; non-trivial = complete sequences", n_single, kfss.len(), objects.len() - n_single, ops.len(), depth)));
     cov.insert("exhaustive".into(), json!(true));
     cov.insert("depth".into(), json!(depth));
     cov.insert("distinct_update_results_capped".into(), json!(acc.distinct_results.len()));
